@@ -3,6 +3,7 @@
 R-ready, R-dead, R-gate (DESIGN §4 C04)."""
 import os
 
+import re
 from upv import facts, control, throws
 from upv import pathrules as pr
 from upv.facts import strip, strip_all_casts, walk, is_assign, const_of, enum_name, path_of
@@ -187,6 +188,29 @@ def check_ready(rep, prog, T, u, fn, depth=0):
         rep.add('R-ready', '%s:return-without-ready' % fn.name, VIOLATED, '%s:%s' % (fn.file, h[2].get('l')),
                 what='a path returns the pipe without passing upipe_throw_ready')
         break
+    # a failure path that gives the pipe up through upipe_release() runs the free function, which throws dead:
+    # that too must come after ready (dead is the last event of a pipe that announced itself)
+    def isrelease(n):
+        return n.get('k') == 'call' and n.get('fn') == 'upipe_release' and n.get('args') and T.same_pipe(fn, n['args'][0], rv, ldefs)
+    # counted from the point where the pipe variable receives the new pipe (releasing a NULL variable on an
+    # earlier failure path does nothing)
+    def binds(n):
+        if n.get('k') == 'decl':
+            return any(v['n'] == rv and isinstance(v.get('init'), dict) and const_of(v['init']) != 0 for v in n['vars'])
+        if is_assign(n) and n['op'] == '=':
+            l = strip(n['lhs'])
+            return isinstance(l, dict) and l.get('k') == 'ref' and l.get('n') == rv and const_of(n['rhs']) != 0
+        return False
+    norel = []
+    for pos in ev.find(binds):
+        hits, _ = ev.reach((pos[0], pos[1]), isrelease, isready)
+        norel += hits
+    for h in norel:
+        nv += 1
+        rep.add('R-ready', '%s:release-without-ready' % fn.name, VIOLATED, '%s:%s' % (fn.file, h[2].get('l')),
+                what='a failure path of the allocation function releases the pipe (its free function throws dead) without having thrown ready: '
+                     'dead is then the only event this pipe ever throws')
+        break
     twice = pr.never_after(ev, isready, isready)
     if twice:
         nv += 1
@@ -194,6 +218,15 @@ def check_ready(rep, prog, T, u, fn, depth=0):
                 what='upipe_throw_ready reachable twice on one path')
     if nv == 0:
         rep.add('R-ready', fn.name, HOLDS, fn.loc, ready_at=[p[2].get('l') for p in readies])
+
+
+AMEND_RE = re.compile(r'^(uref_\w+_(set|delete|copy)\w*|uref_attr_(import|set|delete)\w*|udict_(set|delete|import)\w*|uref_clock_(set|delete|add|rebase)\w*)$')
+# functions that amend the stored definition without re-storing it, confirmed by reading
+AMEND_EXCEPTIONS = {
+    'upipe_http_src_header_value': 'the content type is added while the response headers are parsed, before the first buffer of the transfer is '
+                                   'output; every (re)connection goes through upipe_http_src_set_uri, which stores a fresh definition (upipe_http_source.c:1198-1211)',
+    'upipe_http_src_close': 'the content type is removed when the connection is closed; nothing is output until the next set_uri stores a fresh definition',
+}
 
 
 def output_fields(u):
@@ -248,6 +281,48 @@ def check_gate(rep, prog, u):
                     what='upipe_input on the helper-managed output outside %s_output: bypasses the flow definition gate' % rec)
         if not badf:
             rep.add('R-gate-feed', rec, HOLDS, u.name, feeders=[fn.name for fn, _ in feeders])
+        # (b') the stored definition is amended in place only on the way to X_store_flow_def
+        fd = fields.get('FLOW_DEF')
+        if fd:
+            for fn in sorted(u.funcs.values(), key=lambda f: f.name):
+                if fn.macro == 'UPIPE_HELPER_OUTPUT' or not fn.blocks:
+                    continue
+                al = set()
+                for bid, st_, x in fn.nodes():
+                    if x.get('k') == 'decl':
+                        for v in x['vars']:
+                            i = strip_all_casts(v.get('init')) if isinstance(v.get('init'), dict) else None
+                            if isinstance(i, dict) and i.get('k') == 'mem' and i.get('rec') == rec and i.get('f') == fd:
+                                al.add(v['n'])
+                    elif is_assign(x) and x['op'] == '=':
+                        r, l = strip_all_casts(x['rhs']), strip(x['lhs'])
+                        if isinstance(r, dict) and r.get('k') == 'mem' and r.get('rec') == rec and r.get('f') == fd and \
+                                isinstance(l, dict) and l.get('k') == 'ref':
+                            al.add(l['n'])
+
+                def amends(n, al=al):
+                    if n.get('k') != 'call' or not n.get('fn') or not AMEND_RE.match(n['fn']) or not n.get('args'):
+                        return False
+                    a = strip_all_casts(n['args'][0])
+                    if not isinstance(a, dict):
+                        return False
+                    return (a.get('k') == 'mem' and a.get('rec') == rec and a.get('f') == fd) or (a.get('k') == 'ref' and a.get('n') in al)
+                ev = pr.Events(fn)
+                sites = ev.find(amends)
+                if not sites:
+                    continue
+                store = pr.m_call(r'\w+_store_flow_def')
+                bad = pr.must_follow(ev, amends, store)
+                inst = '%s:%s' % (fn.name, rec)
+                if bad and fn.name in AMEND_EXCEPTIONS:
+                    rep.add('R-gate-amend', inst, OOS, fn.loc, why='listed exception: ' + AMEND_EXCEPTIONS[fn.name])
+                elif bad:
+                    rep.add('R-gate-amend', inst, VIOLATED, '%s:%s' % (fn.file, bad[0][2].get('l')),
+                            what='%s modifies the stored flow definition in place (%s, line %s) and can return without passing X_store_flow_def: '
+                                 'the output state stays VALID and the output never receives the amended definition before the next buffer' % (
+                                     fn.name, bad[0][2].get('fn'), bad[0][2].get('l')))
+                else:
+                    rep.add('R-gate-amend', inst, HOLDS, fn.loc, sites=[x[2].get('l') for x in sites])
     # (c),(d) shape of the generated functions
     for fn in sorted(u.funcs.values(), key=lambda f: f.name):
         if fn.macro != 'UPIPE_HELPER_OUTPUT':
@@ -341,9 +416,10 @@ def check_set_output(rep, fn):
     # allow NONE stored before the OUTPUT store as well: then no path from
     # entry reaches exit without it
     _, exit_reached = ev.reach(None, lambda n: False, none_store, from_entry=True)
-    ok = (not bad or not exit_reached) and bool(ev.find(out_store))
+    ok = not bad and not exit_reached and bool(ev.find(out_store))
     rep.add('R-gate-reset', fn.name, HOLDS if ok else VIOLATED, fn.loc,
-            **({} if ok else {'what': 'set_output replaces the output without resetting OUTPUT_STATE to NONE on every path'}))
+            **({} if ok else {'what': 'a path through set_output does not reset OUTPUT_STATE to NONE: the pipe connected by this call does not get '
+                                      'the flow definition (again) before the next buffer'}))
 
 
 def run(tier='quick', repo=None):
@@ -359,9 +435,10 @@ def run(tier='quick', repo=None):
     rep.rule('R-ready', 'alloc slot function: every return of the pipe variable is preceded on all paths by upipe_throw_ready(pipe), reachable once; no non-log event on the pipe before it (callees summarised)')
     rep.rule('R-dead', 'function calling upipe_throw_dead(p): no call reachable afterwards causes a probe event on p (log, throw) or feeds/sets flow def on p\'s OUTPUT; transitive through TU-local and helper-generated callees')
     rep.rule('R-gate-writer', 'fields bound to OUTPUT/FLOW_DEF/OUTPUT_STATE of a UPIPE_HELPER_OUTPUT instantiation are assigned only in functions generated by that helper (storing NULL into FLOW_DEF is allowed: it only makes X_output drop)')
+    rep.rule('R-gate-amend', 'a function outside the helper that modifies the stored flow definition in place (attribute setter / deleter applied to X->FLOW_DEF or to a local loaded from it) passes X_store_flow_def on every path afterwards: otherwise OUTPUT_STATE stays VALID and the output is never given the amended definition (two listed exceptions in upipe_http_source.c)')
     rep.rule('R-gate-feed', 'upipe_input(s->OUTPUT, ...) occurs only inside the generated X_output')
     rep.rule('R-gate-output', 'in X_output: upipe_input is dominated by case UPIPE_HELPER_OUTPUT_VALID of the switch on OUTPUT_STATE; OUTPUT_STATE = VALID is control dependent on ubase_check(upipe_set_flow_def(OUTPUT, FLOW_DEF))')
-    rep.rule('R-gate-reset', 'X_store_flow_def: every path stores OUTPUT_STATE = NONE unless it passed the udict_cmp equality test; X_set_output: OUTPUT_STATE = NONE on every path that stores OUTPUT')
+    rep.rule('R-gate-reset', 'X_store_flow_def: every path stores OUTPUT_STATE = NONE unless it passed the udict_cmp equality test; X_set_output: OUTPUT_STATE = NONE on every path (every call connects an output anew, the same pipe included)')
     prog = load(tier, repo, rep)
     T = throws.Throws(prog)
     for uname, u in sorted(prog.units.items()):
